@@ -135,6 +135,7 @@ type structCfg struct {
 	fields map[string]string // Go field (possibly promoted) -> Lean projection path
 	tuple  []string          // if non-nil: the struct is a Lean tuple of these Go fields, in order
 	bufs   map[string]bool   // []byte fields modelled as EncLow.Buf
+	zero   string            // Lean term of the zero value
 }
 
 type primCfg struct {
@@ -155,6 +156,7 @@ type fnCfg struct {
 	callbacks   map[string]cbCfg
 	fuel        []string // fuel expression per loop (in source order), over Lean variable names
 	pure        bool     // emit a non-monadic definition (single return expression, nothing can panic)
+	ifaces      map[string]map[string]cbCfg // interface-typed parameters: method name -> callback kind
 	extra       string   // extra leading binders shared by the file (e.g. the re-allocation oracle)
 	extraArgs   string   // the corresponding arguments at call sites
 	rec         bool     // the function calls itself: it takes a fuel argument shared with its loops (mutual structural recursion)
@@ -276,6 +278,13 @@ func sortedKeys(m map[string]bool) []string {
 
 // needsState: does the function thread a user state σ (callbacks that fill the caller's message)?
 func (f *fnCfg) needsState() bool {
+	for _, ms := range f.ifaces {
+		for _, cb := range ms {
+			if cb.kind == "state" || cb.kind == "sink" {
+				return true
+			}
+		}
+	}
 	for _, cb := range f.callbacks {
 		if cb.kind == "state" || cb.kind == "sink" {
 			return true
